@@ -208,6 +208,15 @@ def run(tier='quick'):
                               '' if ok_ins else 'the INSERT stores nextEntityId = %s instead of the sentinel; ' % (
                                   vf.shape(ins[0].value)[:40] if ins else 'nothing'),
                               '' if ok_upd else 'no UPDATE relinks the previous tail'))
+    # add_back's duplicate look-up identifies an entry by its complete unique key (list, database, track):
+    # a look-up on fewer columns matches another entry and the add is silently dropped
+    from . import c18 as _c18
+    _order = rowrules.enum_order(prog)
+    _cats = rowrules.version_catalogs(prog)
+    from . import c13 as _c13
+    _sup = set(_c13._supported(prog))
+    _v2 = [i for i, en in enumerate(_order) if en in _sup and rowrules._gen2(en)]
+    _c18._lookup_keys(prog, cg, eff, chk, P3, _order, _cats, min(_v2), max(_v2))
     # ---- P4: the multi-statement relinking is one atomic unit ---------------------------------
     from .. import atomic
     P4 = chk.rule('P4', 'the operations that relink a chain with several statements (playlist_table::update, '
